@@ -1,4 +1,4 @@
 SPECIFICATION MonSpec
-INVARIANT MonMt
+INVARIANT MonMtC04
 POSTCONDITION MonDone
 CHECK_DEADLOCK FALSE
